@@ -124,7 +124,12 @@ func (runInfo *runInfoStruct) runSingleStmt() {
 		if runInfo.err != nil {
 			return
 		}
-		runInfo.err = newStringError(stmt, fmt.Sprint(runInfo.rv.Interface()))
+		msg := fmt.Sprint(runInfo.rv.Interface())
+		runInfo.err = newStringError(stmt, msg)
+		if runInfo.err == nil {
+			// throw always throws, also an empty message
+			runInfo.err = &Error{Message: msg, Pos: stmt.Position()}
+		}
 
 	// ModuleStmt
 	case *ast.ModuleStmt:
